@@ -20,6 +20,7 @@ from dvc_data.hashfile.hash import hash_file  # noqa: E402
 from dvc_data.hashfile.state import State  # noqa: E402
 
 FS = LocalFileSystem()
+SEEN_INODES: dict = {}
 ALGS = ["md5", "md5-dos2unix", "sha256"]
 
 
@@ -37,7 +38,7 @@ def expect(alg, data):
 def mutate(rng, path, clock):
     """one user action on the file; returns a label.  mtimes are set explicitly so that histories do not depend on
     timer resolution: every write moves mtime forward by at least 1 s, except 'touch_back' which restores an old one."""
-    kind = rng.choice(["rewrite", "same_size", "append", "touch", "replace", "recreate", "crlf"])
+    kind = rng.choice(["rewrite", "same_size", "append", "touch", "replace", "replace_keep_mtime", "recreate", "crlf"])
     old = open(path, "rb").read() if os.path.exists(path) else b""
     if kind == "rewrite":
         data = os.urandom(rng.randint(1, 40))
@@ -49,6 +50,19 @@ def mutate(rng, path, clock):
         data = b"line one\r\nline two\r\n" + str(rng.randrange(5)).encode()
     else:
         data = old
+    if kind == "replace_keep_mtime" and old:  # same size, same mtime, new inode: only the inode tells
+        st = os.stat(path)
+        tmp = path + ".new"
+        open(tmp, "wb").write(bytes((b + 3) % 256 for b in old))
+        os.replace(tmp, path)
+        os.utime(path, ns=(st.st_atime_ns, st.st_mtime_ns))
+        if os.stat(path).st_ino in SEEN_INODES.setdefault(path, set()) or os.stat(path).st_ino == st.st_ino:
+            # the filesystem handed an old inode number back: (inode, mtime, size) would all be unchanged, which the
+            # statement's histories exclude -- move the mtime instead
+            clock[0] += 1
+            os.utime(path, (clock[0], clock[0]))
+        SEEN_INODES[path].update((st.st_ino, os.stat(path).st_ino))
+        return kind
     if kind == "replace":  # atomic replacement: new inode
         data = os.urandom(len(old) or 3)
         tmp = path + ".new"
@@ -97,14 +111,35 @@ def run_history(rng, nfiles, steps):
                     alg = rng.choice(ALGS)
                     sub = paths if rng.random() < 0.5 else rng.sample(paths, max(1, len(paths) // 2))
                     infos = {p: FS.info(p) for p in sub}
-                    res = _get_hashes(list(sub), FS, alg, infos, state=state)
-                    log.append(("batch", alg, len(sub)))
+                    raced = set()
+                    cb = None
+                    if rng.random() < 0.3 and len(sub) <= 6:
+                        # a writer that is active WHILE the batch runs: right after a file was hashed (progress callback)
+                        # some file of the batch is rewritten in place (same size, newer mtime).  The hash returned for it
+                        # by this very batch may be the old one (a race the statement does not exclude); what must never
+                        # happen is that the old hash is vouched for afterwards (checked by the later, quiet queries).
+                        from fsspec.callbacks import Callback as _CB
+
+                        class Writer(_CB):
+                            def call(self, *a, **k):
+                                q = rng.choice(sub)
+                                old_ = open(q, "rb").read()
+                                open(q, "wb").write(bytes((b + 1) % 256 for b in old_) or b"x")
+                                clock[0] += 1
+                                os.utime(q, (clock[0], clock[0]))
+                                raced.add(q)
+
+                        cb = Writer()
+                    res = _get_hashes(list(sub), FS, alg, infos, state=state, callback=cb)
+                    log.append(("batch" if cb is None else "batch+concurrent-writer", alg, len(sub)))
                     bad = None
                     if set(res) != set(sub):
                         bad = f"_get_hashes returned {len(res)} paths for {len(sub)} requested"
                     for p in sub:
                         if bad:
                             break
+                        if p in raced:
+                            continue
                         _, hi, _ = res[p]
                         want = expect(alg, open(p, "rb").read())
                         if hi.name != alg or hi.value != want:
@@ -128,7 +163,7 @@ def main():
         evals += 1
         failures.extend(fs_)
     print(json.dumps({"evaluations": evals, "distinct_nontrivial": evals, "n_failures": len(failures), "failures": failures[:4],
-                      "bound": f"{n} seeded histories of <= 14 steps over <= 6 files (every tenth: 1100 files, 6 steps), 3 algorithms, 7 kinds of file mutation"}))
+                      "bound": f"{n} seeded histories of <= 14 steps over <= 6 files (every tenth: 1100 files, 6 steps), 3 algorithms, 8 kinds of file mutation"}))
 
 
 if __name__ == "__main__":
